@@ -53,7 +53,7 @@ m("c01-service-unmonitored", "C01", "O1.8", (R + "service.py", "runner.register_
 m("c01-manage-swallows", "C01", "O1.3", (R + "thread_runner.py", "    async def manage_payloads(self):\n        await self._payload_failure\n", "    async def manage_payloads(self):\n        try:\n            await self._payload_failure\n        except Exception:\n            self._logger.exception('payload failure')\n"))
 n("c01-n-inverted-none", "C01", (R + "thread_runner.py", "            if result is None:\n                return\n            failure = OrphanedReturn(payload, result)\n", "            if result is not None:\n                failure = OrphanedReturn(payload, result)\n            else:\n                return\n"))
 n("c01-n-eq-none", "C01", (R + "trio_runner.py", "        if value is not None:", "        if value != None:"))
-n("c01-n-helper", "C01", (R + "asyncio_runner.py", "        if not self._payload_failure.done():\n            self._payload_failure.set_exception(failure)\n\n    async def manage_payloads", "        self._fail(failure)\n\n    def _fail(self, failure):\n        if not self._payload_failure.done():\n            self._payload_failure.set_exception(failure)\n\n    async def manage_payloads"))
+n("c01-n-helper", "C01", (R + "asyncio_runner.py", "        if not self._payload_failure.done():\n            if type(failure) is StopIteration:\n                # raised by calling ``payload`` itself; a Future refuses StopIteration:\n                # report it as the cause of a RuntimeError, as for a coroutine (PEP 479)\n                error = RuntimeError(\"payload raised StopIteration\")\n                error.__cause__ = failure\n                failure = error\n            self._payload_failure.set_exception(failure)\n\n    async def manage_payloads", "        self._fail(failure)\n\n    def _fail(self, failure):\n        if not self._payload_failure.done():\n            if type(failure) is StopIteration:\n                # raised by calling ``payload`` itself; a Future refuses StopIteration:\n                # report it as the cause of a RuntimeError, as for a coroutine (PEP 479)\n                error = RuntimeError(\"payload raised StopIteration\")\n                error.__cause__ = failure\n                failure = error\n            self._payload_failure.set_exception(failure)\n\n    async def manage_payloads"))
 
 # ------------------------------------------------------------------ C02
 m("c02-close-not-awaited", "C02", "O2.1", (R + "meta_runner.py", "            await asyncio.shield(self._aclose_runners(runner_tasks))\n            raise\n", "            asyncio.ensure_future(self._aclose_runners(runner_tasks))\n            raise\n"))
@@ -458,3 +458,5 @@ m("c01-stopiteration-wrapper-unused", "C01", "O1.14", (R + "thread_runner.py", "
 m("c05-merge-no-longer-flattened", "C05", "O18.10", (G + "core/config.py", "        super().flatten_mapping(node)\n", "        pass\n"))
 m("c13-merge-no-longer-flattened", "C13", "O18.10", (G + "core/config.py", "        super().flatten_mapping(node)\n", "        pass\n"))
 m("c13-compose-node-returns-nothing", "C13", "O18.10", (G + "core/config.py", "            self.construct_undefined(node)\n        return node\n", "            self.construct_undefined(node)\n"))
+m("revert-fix-C01-stopiteration-asyncio", "C01", "O1.14", (R + "asyncio_runner.py", "            if type(failure) is StopIteration:\n                # raised by calling ``payload`` itself; a Future refuses StopIteration:\n                # report it as the cause of a RuntimeError, as for a coroutine (PEP 479)\n                error = RuntimeError(\"payload raised StopIteration\")\n                error.__cause__ = failure\n                failure = error\n", ""))
+m("c01-stopiteration-asyncio-cause-dropped", "C01", "O1.14", (R + "asyncio_runner.py", "                error = RuntimeError(\"payload raised StopIteration\")\n                error.__cause__ = failure\n                failure = error\n            self._payload_failure.set_exception(failure)\n\n    async def manage_payloads", "                error = RuntimeError(\"payload raised StopIteration\")\n                failure = error\n            self._payload_failure.set_exception(failure)\n\n    async def manage_payloads"))
